@@ -227,9 +227,14 @@ int asm_create_bin_file(assemblyline_t al, const char *file_name) {
 
   FAIL_IF_MSG(write_ptr == NULL, "failed to create binary file")
 
-  fwrite(buffer, sizeof(uint8_t), len, write_ptr);
-
-  fclose(write_ptr);
+  size_t written = 0;
+  if (len > 0)
+    written = fwrite(buffer, sizeof(uint8_t), len, write_ptr);
+  // a short write or a failing flush on close means the file is incomplete
+  int close_failed = fclose(write_ptr);
+  FAIL_IF_MSG(len > 0 && written != (size_t)len,
+              "failed to write binary file\n");
+  FAIL_IF_MSG(close_failed, "failed to write binary file\n");
 
   return EXIT_SUCCESS;
 }
